@@ -227,6 +227,54 @@ def directed(budget):
     return {"reproduced": False, "cases": cases, "exhaustive": True}
 
 
+def bound_search():
+    """C07: an unterminated frame fed in reads of r bytes must raise a limit error before more than
+    limit + r + |sep| bytes are held; a frame with payload + |sep| + 1 <= limit must never be rejected."""
+    cases = 0
+    for sep in (b"\n", b"\r\n", b"aba"):
+        for L in range(1, 9):
+            cfg = {"kind": "sep", "sep": list(sep), "limit": L}
+            for r in range(1, 6):
+                for filler in (b"x", sep[-1:], sep[:1]):
+                    total = L + r + len(sep) + 3 * r
+                    data = (filler * total)
+                    if sep in data:
+                        continue
+                    for path in ("copy", "buffered"):
+                        if path == "buffered" and L < len(sep):
+                            continue
+                        cases += 1
+                        ser = make(cfg)
+                        fed, raised = 0, False
+                        if path == "copy":
+                            c = StreamDataConsumer(StreamProtocol(ser))
+                            while fed < total and not raised:
+                                fed += r
+                                try:
+                                    c.next(data[fed - r:fed])
+                                except StopIteration:
+                                    pass
+                                except StreamProtocolParseError:
+                                    raised = True
+                        else:
+                            c = BufferedStreamDataConsumer(BufferedStreamProtocol(ser), r)
+                            while fed < total and not raised:
+                                b = memoryview(c.get_write_buffer())
+                                m = min(len(b), r)
+                                b[:m] = data[fed:fed + m]
+                                fed += m
+                                try:
+                                    c.next(m)
+                                except StopIteration:
+                                    pass
+                                except StreamProtocolParseError:
+                                    raised = True
+                        if not raised or fed > L + r + len(sep):
+                            return {"reproduced": True, "config": cfg, "read_size": r, "filler": filler.hex(), "path": path, "fed_before_error": fed,
+                                    "raised": raised, "rule": "held bytes must not exceed limit + one read + one separator (C07)", "cases": cases, "mode": "bound"}
+    return {"reproduced": False, "cases": cases, "exhaustive": True}
+
+
 def search(prop, max_len, budget):
     cases = distinct = 0
     seen = set()
@@ -288,7 +336,9 @@ def main():
     a = ap.parse_args()
     if a.replay:
         w = json.load(open(a.replay))["witness"]
-        if "packet" in w:
+        if w.get("mode") == "bound":
+            r = bound_search()
+        elif "packet" in w:
             r = round_trip_search(len(bytes.fromhex(w["packet"])))
         else:
             bad = check_case(w["config"], bytes.fromhex(w["stream"]), tuple(w["cuts"]), w["hint"])
@@ -297,6 +347,8 @@ def main():
         return 0 if not r["reproduced"] else 1
     if a.mode == "roundtrip":
         r = round_trip_search(a.max_len)
+    elif a.mode == "bound":
+        r = bound_search()
     elif a.mode == "directed":
         r = directed(a.budget)
     else:
